@@ -49,6 +49,10 @@ CHECKS = {
          "Every documented specifier with every modifier is rendered for thousands of values of all four formattable kinds (date, time, naive date-time, zone-aware incl. headroom wall clocks) and compared character by character with a reference renderer written from the documentation table; random format strings built from specifiers, literals, white space, %% and malformed specifiers must either render exactly the reference text or fail exactly when the reference says so (unknown/malformed specifier, modifier on a non-numeric or composite specifier, field the value lacks).",
          "Trusted base: harness/src/refmodel/strftime.rs (tokenizer + renderer, ~300 lines) and R-cal. Not asserted (documentation silent): %y/%g for negative years, %Z for offsets with seconds, %#z when formatting; the sign/padding interplay follows the stated assumption in the evidence.",
          "DESIGN.md section 3 C12"),
+ "C13": ("proptest over a generated grammar of unambiguous format strings (calendar / ordinal / ISO week / Sunday- and Monday-week dates, every year spelling, all padding modifiers, 24h and 12h clocks, every fraction form, zones, %s, composites) x values the format can express, with case and white-space perturbation and parse_and_remainder suffixes; round-trip oracle with precision truncation derived from the reference tokenizer",
+         "For every generated (format, value) pair the text produced by format() is parsed back with parse_from_str / parse_and_remainder of the matching type and must equal the value truncated to what the format prints (minutes, seconds, 3/6/9 fraction digits; leap second kept iff seconds are printed); letter case of names and am/pm is flipped and white space widened at random. %#z is exercised read-only, %::z/%:::z/%Z print-only (no panic).",
+         "Trusted base: the format family generator (harness/src/props/c13.rs) only emits formats whose fields determine the value (separators between variable-width numbers, no letters in separators); the expected precision comes from harness/src/refmodel/strftime.rs's tokenizer.",
+         "DESIGN.md section 3 C13"),
  "C17": ("proptest over stamps inside/outside the i64-nanosecond window, log-uniform/tie-making/invalid spans, offsets and digit counts, differential against floor/ceil arithmetic on i128 wall-clock stamps",
          "duration_trunc/round/round_up on NaiveDateTime and DateTime<FixedOffset> must return exactly floor/ceil/nearest-ties-up multiples of the span on the wall-clock stamp with the offset kept, be idempotent while the result stays inside the window, and report DurationExceedsLimit / TimestampExceedsLimit exactly for the three stated causes, never panicking (incl. headroom wall clocks); round_subsecs/trunc_subsecs on NaiveTime, NaiveDateTime and DateTime for all digit counts with carry. Leap-second operands: no panic, valid values, sub-second idempotence only.",
          "Trusted base: i128 div_euclid arithmetic (harness/src/props/c17.rs).",
